@@ -81,6 +81,7 @@ theorem de_ext_all :
     · exact Ext.err _
     · apply Ext.bind
       · apply deVec_ext
+        unfold deEntry
         apply Ext.bind (iha st)
         intro x; dsimp only
         exact Ext.map' (ihb st) _ (fun _ _ _ => rfl)
